@@ -367,3 +367,22 @@ Print Assumptions T09_datetime_maxday_all.
 Theorem T09_datetime_lex_fields_partial : forall b v, dt_parse true b = Some v -> fields_valid v.
 Proof. exact parsed_fields_valid. Qed.
 Print Assumptions T09_datetime_lex_fields_partial.
+
+(** ** xs:date: the lexical theorem *)
+From XV Require Import C09.Spec09g C09.Model09g C09.Proofs09t.
+
+(** XMLDateTime::parseDate (getDate with indexOf/parseInt, parseTimeZone/getTimeZone, validateDateTime) accepts a string
+    iff it is in the lexical space of xs:date:  '-'? yyyy '-' mm '-' dd zzzzzz?  with at least four year digits, no
+    leading zero beyond four, year 0000 excluded, month 01-12, day valid for the month and year, zone 'Z' or
+    (+|-)hh:mm up to 14:00 -- for every string whose year has at most 9 digits (the implementation keeps it in a C int) *)
+Theorem T09_date_lex : forall b, (year_digits b <= 9)%nat -> date_ok true b = date_lex b.
+Proof. exact date_lex_thm. Qed.
+Print Assumptions T09_date_lex.
+(** the time-zone part alone (shared with the other date/time types) *)
+Theorem T09_timezone_lex : forall pre z,
+  match date_zone (pre ++ z) (length pre) with
+  | Some (h, m) => (0 <= h <= 99 /\ 0 <= m <= 99)%Z /\ tz_lex z = ((h <? 14) && (m <=? 59) || (h =? 14) && (m =? 0))%Z
+  | None => tz_lex z = false
+  end.
+Proof. exact date_zone_spec. Qed.
+Print Assumptions T09_timezone_lex.
